@@ -295,6 +295,120 @@ impl KColl for ListN {
     }
 }
 
+// ---- zero-sized values: KeyExpTree<NKey, u8, ()> / KeyExpList<NKey, u8, ()> (an expiring *set*) ----
+// Every answer of such a collection is `()`: only the process outcome, `Some`/`None` of the exact
+// lookup and the length of the export are observable. Drawn only by the checks that look at
+// nothing else (C07: length of the export; C10; C19).
+
+type TreeZ = KeyExpTree<NKey, u8, ()>;
+type ListZ = KeyExpList<NKey, u8, ()>;
+
+/// what a query of a zero-sized-value collection "returns"
+pub const ZST_VAL: i64 = -7_000_000_099;
+
+macro_rules! zst_common {
+    () => {
+        fn insert(&mut self, k: SimKey, _v: i64, t: i32) {
+            KeyExpCollection::insert(self, nk(k), (), nt(t))
+        }
+        fn get(&mut self, t: i32, k: SimKey) -> Option<i64> {
+            self.get_value(nt(t), nk(k)).map(|_| ZST_VAL)
+        }
+        fn less(&mut self, t: i32, _d: i64, k: SimKey) -> i64 {
+            self.first_less(nt(t), (), nk(k));
+            ZST_VAL
+        }
+        fn leq(&mut self, t: i32, _d: i64, k: SimKey) -> i64 {
+            self.first_less_or_equal(nt(t), (), nk(k));
+            ZST_VAL
+        }
+        fn leq_by(&mut self, t: i32, _d: i64, f: &dyn Fn(SimKey) -> Ordering) -> i64 {
+            self.first_less_or_equal_by(nt(t), (), |k| f(sk(k)));
+            ZST_VAL
+        }
+        fn is_empty(&self) -> bool {
+            KeyExpCollection::is_empty(self)
+        }
+        fn clear(&mut self) {
+            KeyExpCollection::clear(self)
+        }
+        fn export(self: Box<Self>, t: i32) -> (Vec<i64>, usize, usize) {
+            let v = (*self).into_ordered_vec(nt(t));
+            let n = v.len();
+            (vec![ZST_VAL; n], n, 0)
+        }
+    };
+}
+
+impl KColl for TreeZ {
+    fn name(&self) -> &'static str {
+        "KeyExpTree"
+    }
+    zst_common!();
+    fn snapshot(&self) -> Option<Snap> {
+        let v = self.verif_snapshot();
+        Some(Snap {
+            root: v.root,
+            slots: v.slots.iter().map(|s| Slot { parent: s.parent, left: s.left, right: s.right, red: s.red, key: s.item.key as i32, aux: s.item.exp as i32 }).collect(),
+            unused: v.unused,
+            unused_cap: v.unused_capacity,
+        })
+    }
+    fn stored(&self) -> Vec<SimKey> {
+        let v = self.verif_snapshot();
+        let mut out = Vec::new();
+        let mut stack: Vec<(u32, bool)> = Vec::new();
+        if v.root != snap::E {
+            stack.push((v.root, false));
+        }
+        let mut guard = 0usize;
+        while let Some((i, done)) = stack.pop() {
+            guard += 1;
+            if guard > 4 * v.slots.len() + 8 || i as usize >= v.slots.len() {
+                break;
+            }
+            let s = &v.slots[i as usize];
+            if done {
+                out.push(sk(s.item));
+            } else {
+                if s.right != snap::E {
+                    stack.push((s.right, false));
+                }
+                stack.push((i, true));
+                if s.left != snap::E {
+                    stack.push((s.left, false));
+                }
+            }
+        }
+        out
+    }
+    fn min_exp(&self) -> Option<i32> {
+        None
+    }
+    fn fresh(&self, cap: usize) -> Box<dyn KColl> {
+        Box::new(TreeZ::new(cap))
+    }
+}
+
+impl KColl for ListZ {
+    fn name(&self) -> &'static str {
+        "KeyExpList"
+    }
+    zst_common!();
+    fn snapshot(&self) -> Option<Snap> {
+        None
+    }
+    fn stored(&self) -> Vec<SimKey> {
+        self.verif_keys().into_iter().map(sk).collect()
+    }
+    fn min_exp(&self) -> Option<i32> {
+        Some(self.verif_min_exp() as i32)
+    }
+    fn fresh(&self, cap: usize) -> Box<dyn KColl> {
+        Box::new(ListZ::new(cap))
+    }
+}
+
 // ---- fat instantiation: KeyExpTree<FKey, i32, i64> / KeyExpList<FKey, i32, i64> (280-byte keys) ----
 
 type TreeF = KeyExpTree<FKey, i32, i64>;
@@ -496,11 +610,14 @@ impl KeyWorld {
     pub fn new(cfg: Cfg, rng: Option<&mut Rng>) -> KeyWorld {
         let mut colls: Vec<Option<Box<dyn KColl>>> = Vec::new();
         let mut names = Vec::new();
-        let narrow = cfg.key_ty == 1;
+        let zst = cfg.key_ty == 3;
+        let narrow = cfg.key_ty == 1 || zst;
         let fat = cfg.key_ty == 2;
         if cfg.colls & C_TREE != 0 {
-            colls.push(Some(if narrow {
-                Box::new(TreeN::new(cfg.cap)) as Box<dyn KColl>
+            colls.push(Some(if zst {
+                Box::new(TreeZ::new(cfg.cap)) as Box<dyn KColl>
+            } else if narrow {
+                Box::new(TreeN::new(cfg.cap))
             } else if fat {
                 Box::new(TreeF::new(cfg.cap))
             } else {
@@ -509,8 +626,10 @@ impl KeyWorld {
             names.push("KeyExpTree");
         }
         if cfg.colls & C_LIST != 0 {
-            colls.push(Some(if narrow {
-                Box::new(ListN::new(cfg.cap)) as Box<dyn KColl>
+            colls.push(Some(if zst {
+                Box::new(ListZ::new(cfg.cap)) as Box<dyn KColl>
+            } else if narrow {
+                Box::new(ListN::new(cfg.cap))
             } else if fat {
                 Box::new(ListF::new(cfg.cap))
             } else {
@@ -1287,7 +1406,9 @@ impl KeyWorld {
             ctx.mix(v.len() as u64);
             if cfg.has(O_KEXPORT) {
                 ctx.stats.oracle_evals += 1;
-                if v != expect {
+                // zero-sized values: only how many there are is observable
+                let differs = if cfg.key_ty == 3 { v.len() != expect.len() } else { v != expect };
+                if differs {
                     let tag = if v.len() > expect.len() {
                         "export has extra values"
                     } else if v.len() < expect.len() {
